@@ -132,14 +132,16 @@ Section Sem.
         end
     end.
 
-  (* one step of a single-character loop is also required to be undone by stepping back one character (and
-     redone by stepping forward one): what the backtracker relies on when it gives back iterations of
-     Loop1CharBody by next_left_pos / next_right_pos.  True on well-formed text; where it fails the semantics is
+  (* one step of a single-character loop is also required to stay inside the haystack, to move in the direction
+     of the match, and to be undone by stepping back one character (and redone by stepping forward one): what
+     the backtracker relies on when it gives back iterations of Loop1CharBody by next_left_pos / next_right_pos.  True on well-formed text; where it fails the semantics is
      undefined (None), which the driver counts as inconclusive. *)
   Definition step_inv (fwd : bool) (q q' : nat) : bool :=
     match (if fwd then ix_next_left_pos ix h q' else ix_next_right_pos ix h q'),
           (if fwd then ix_next_right_pos ix h q else ix_next_left_pos ix h q) with
-    | Ok (Some a), Ok (Some b) => (a =? q)%nat && (b =? q')%nat
+    | Ok (Some a), Ok (Some b) =>
+        (a =? q)%nat && (b =? q')%nat && (q <=? length h)%nat && (q' <=? length h)%nat &&
+        (if fwd then q <? q' else q' <? q)%nat
     | _, _ => false
     end.
 
